@@ -416,11 +416,6 @@ func (w *World) Dump(ctx sdk.Context) M {
 	}
 	{
 		p := app.NodeKeeper.GetParams(ctx)
-		apy, err := sdk.NewDecFromStr(p.AnnualPercentageYield)
-		apyN := jsonNum("0")
-		if err == nil {
-			apyN = decN(apy)
-		}
 		// the fishmen list is read from the parameter store itself (chain state), not through the keeper's getter: the
 		// getter is code under test, and the list is the one parameter a modelled operation (govfishmen) changes
 		fishInfo := p.FishmenInfo
@@ -433,13 +428,7 @@ func (w *World) Dump(ctx sdk.Context) M {
 				fish = append(fish, w.Addr.ID(f))
 			}
 		}
-		st["params"] = M{
-			"blockReward": coinN(p.BlockReward), "baseline": coinN(p.Baseline), "apy": apyN, "apyOk": err == nil,
-			"halvingPeriod": p.HalvingPeriod, "adjustmentPeriod": p.AdjustmentPeriod, "fishmen": fish,
-			"penaltyBase": p.PenaltyBase, "maxPenalty": p.MaxPenalty, "shareThreshold": decN(app.NodeKeeper.ShareThreshold(ctx)),
-			"vstorageThreshold": p.VstorageThreshold, "offlineTriggerHeight": p.OfflineTriggerHeight,
-			"denomIsSao": p.BlockReward.Denom == "sao",
-		}
+		st["params"] = ParamsJSON(p, app.NodeKeeper.ShareThreshold(ctx), fish)
 	}
 	// faults: raw iteration of the three getter-less prefixes
 	{
@@ -644,4 +633,35 @@ func (w *World) confirms(s string) [][]int {
 		}
 	}
 	return r
+}
+
+// ParamsJSON is the model's view of the node parameters (also used for a genesis the application refused: the driver
+// compares the model's validation with that refusal).
+func ParamsJSON(p nodetypes.Params, shareThreshold sdk.Dec, fish []int) M {
+	apy, err := sdk.NewDecFromStr(p.AnnualPercentageYield)
+	apyN := jsonNum("0")
+	if err == nil {
+		apyN = decN(apy)
+	}
+	if fish == nil {
+		fish = []int{}
+	}
+	br, bl := jsonNum("0"), jsonNum("0")
+	if !p.BlockReward.Amount.IsNil() {
+		br = coinN(p.BlockReward)
+	}
+	if !p.Baseline.Amount.IsNil() {
+		bl = coinN(p.Baseline)
+	}
+	st := jsonNum("0")
+	if !shareThreshold.IsNil() {
+		st = decN(shareThreshold)
+	}
+	return M{
+		"blockReward": br, "baseline": bl, "apy": apyN, "apyOk": err == nil,
+		"halvingPeriod": p.HalvingPeriod, "adjustmentPeriod": p.AdjustmentPeriod, "fishmen": fish,
+		"penaltyBase": p.PenaltyBase, "maxPenalty": p.MaxPenalty, "shareThreshold": st,
+		"vstorageThreshold": p.VstorageThreshold, "offlineTriggerHeight": p.OfflineTriggerHeight,
+		"denomIsSao": p.BlockReward.Denom == "sao",
+	}
 }
